@@ -45,7 +45,7 @@ pub enum ThrSpec {
 
 #[derive(Clone, Copy, Debug, Serialize, Deserialize, PartialEq)]
 pub enum Dur {
-    Height(u16),
+    Height(u32),
     Time(u32),
 }
 
@@ -101,6 +101,11 @@ pub enum PMsg {
     ReExecute(PRef),
     ReVote(PRef),
     ReClose(PRef),
+    /// the multisig proposes to itself (a nested Propose without any payment). Only built on flex
+    /// multisigs that take a cw20 deposit, where such a proposal can never be paid for (a token
+    /// contract grants no allowance on one's own account), so the nested call - and with it the whole
+    /// Execute - fails; everywhere else it stands for a Record message
+    RePropose,
 }
 
 /// who performs an op: a fixed actor, or a state-relative choice resolved by the interpreter
@@ -156,6 +161,9 @@ pub struct MCase {
     pub thr: ThrSpec,
     pub period: Dur,
     pub ops: Vec<Op>,
+    /// flex: the multisig is a (weight 1) member of its own group
+    #[serde(default)]
+    pub self_member: bool,
 }
 
 // ------------------------------------------------------------------ strategies
@@ -197,8 +205,19 @@ fn thr_spec() -> BoxedStrategy<ThrSpec> {
     .boxed()
 }
 
+fn dur_for(prop: &str) -> BoxedStrategy<Dur> {
+    if prop == "C06" {
+        // C06 follows snapshots over long stretches more often
+        prop_oneof![10 => (1u32..12).prop_map(Dur::Height), 10 => (1u32..120).prop_map(Dur::Time), 3 => Just(Dur::Height(2_500_000))].boxed()
+    } else {
+        dur()
+    }
+}
+
 fn dur() -> BoxedStrategy<Dur> {
-    prop_oneof![(1u16..12).prop_map(Dur::Height), (1u32..120).prop_map(Dur::Time)].boxed()
+    // the long period (millions of blocks, as in the contract's own tests) keeps proposals open across
+    // `Advance { blocks: 255 }`, which stands for 1 000 001 blocks
+    prop_oneof![12 => (1u32..12).prop_map(Dur::Height), 12 => (1u32..120).prop_map(Dur::Time), 1 => Just(Dur::Height(2_500_000))].boxed()
 }
 
 fn latest() -> BoxedStrategy<Latest> {
@@ -239,7 +258,7 @@ fn pmsgs(prop: &str) -> BoxedStrategy<Vec<PMsg>> {
             v
         })
         .boxed(),
-        "C15" => proptest::collection::vec(prop_oneof![3 => Just(PMsg::Record), 2 => (actor(), 0u32..40).prop_map(|(to, amt)| PMsg::SpendDeposit { to, amt })], 0..3).boxed(),
+        "C15" => proptest::collection::vec(prop_oneof![6 => Just(PMsg::Record), 4 => (actor(), 0u32..40).prop_map(|(to, amt)| PMsg::SpendDeposit { to, amt }), 1 => Just(PMsg::RePropose)], 0..3).boxed(),
         _ => Just(vec![]).boxed(),
     }
 }
@@ -248,7 +267,8 @@ fn pay(prop: &str) -> BoxedStrategy<Pay> {
     if prop == "C15" {
         prop_oneof![12 => Just(Pay::Exact), 2 => Just(Pay::None), 2 => Just(Pay::Short), 2 => Just(Pay::Excess), 1 => Just(Pay::WrongDenom), 1 => Just(Pay::ExtraCoin)].boxed()
     } else {
-        Just(Pay::None).boxed()
+        // a quarter of the flex multisigs of the other properties require a deposit too; it is mostly paid
+        prop_oneof![8 => Just(Pay::Exact), 1 => Just(Pay::None)].boxed()
     }
 }
 
@@ -267,7 +287,7 @@ fn op(prop: &str) -> BoxedStrategy<Op> {
     let vote = (by_voter(), target(), prop_oneof![5 => Just(0u8), 3 => Just(1u8), 2 => Just(2u8), 1 => Just(3u8)]).prop_map(|(by, prop, vote)| Op::Vote { by, prop, vote }).boxed();
     let execute = (by_member(), target()).prop_map(|(by, prop)| Op::Execute { by, prop }).boxed();
     let close = (by_member(), target()).prop_map(|(by, prop)| Op::Close { by, prop }).boxed();
-    let advance = (0u8..4, 0u16..40).prop_map(|(blocks, secs)| Op::Advance { blocks, secs }).boxed();
+    let advance = prop_oneof![24 => (0u8..4, 0u16..40).prop_map(|(blocks, secs)| Op::Advance { blocks, secs }), 1 => Just(Op::Advance { blocks: 255, secs: 0 })].boxed();
     let to_expiry = (any::<u16>(), -2i8..=2).prop_map(|(prop, delta)| Op::ToExpiry { prop, delta }).boxed();
     // remove lists may name the same address several times (and addresses that are also added)
     let removes = prop_oneof![
@@ -283,7 +303,8 @@ fn op(prop: &str) -> BoxedStrategy<Op> {
         "C03" => prop_oneof![6 => propose, 14 => vote, 4 => execute, 4 => close, 3 => advance, 4 => to_expiry, 2 => group].boxed(),
         "C05" => prop_oneof![6 => propose, 10 => vote, 9 => execute, 4 => close, 2 => advance, 3 => to_expiry, 3 => fault, 2 => fund, 2 => group].boxed(),
         "C06" => prop_oneof![6 => propose, 12 => vote, 2 => execute, 1 => close, 4 => advance, 2 => to_expiry, 8 => group].boxed(),
-        _ => prop_oneof![8 => propose, 10 => vote, 6 => execute, 6 => close, 2 => advance, 4 => to_expiry, 1 => fund_dep].boxed(),
+        // C15: group changes between Propose and Execute / Close must not touch anybody's deposit
+        _ => prop_oneof![8 => propose, 10 => vote, 6 => execute, 6 => close, 2 => advance, 4 => to_expiry, 1 => fund_dep, 3 => group].boxed(),
     }
 }
 
@@ -310,7 +331,7 @@ fn flavour(prop: &str) -> BoxedStrategy<Flavour> {
     let settle = if prop == "C06" { prop_oneof![1 => Just(0u8), 6 => 1u8..3].boxed() } else { (1u8..3).boxed() };
     let flex = match prop {
         "C15" => (exec(prop), dep.prop_map(Some), any::<bool>(), settle).prop_map(|(executor, deposit, hook, settle_blocks)| Flavour::Flex { executor, deposit, hook, settle_blocks }).boxed(),
-        _ => (exec(prop), any::<bool>(), settle).prop_map(|(executor, hook, settle_blocks)| Flavour::Flex { executor, deposit: None, hook, settle_blocks }).boxed(),
+        _ => (exec(prop), proptest::option::weighted(0.25, dep), any::<bool>(), settle).prop_map(|(executor, deposit, hook, settle_blocks)| Flavour::Flex { executor, deposit, hook, settle_blocks }).boxed(),
     };
     match prop {
         "C15" => flex,
@@ -340,11 +361,34 @@ pub fn mcase_strategy(prop: &str, tier: Tier) -> BoxedStrategy<MCase> {
                 .boxed();
             // dispatch fails while the fault switch is on, then the same proposal is retried
             let retry = (any::<u16>(), by_member()).prop_map(|(k, by)| vec![Op::Fault { on: true }, Op::Execute { by, prop: Target::Apt(k) }, Op::Fault { on: false }, Op::Execute { by, prop: Target::Apt(k) }]).boxed();
-            let groups = if prop_s == "C05" { prop_oneof![12 => single, 3 => campaign, 2 => retry].boxed() } else { prop_oneof![12 => single, 3 => campaign].boxed() };
+            // C06: a proposal that stays open for a very long time while one member's weight is changed twice,
+            // more than a million blocks apart, before that member votes (its ballot still carries the
+            // weight of the proposal's own snapshot)
+            let long_haul = (by_member(), actor(), weight(), weight(), any::<bool>())
+                .prop_map(|(by, a, w1, w2, remove_first)| {
+                    vec![
+                        Op::Propose { by, msgs: vec![], latest: Latest::None, pay: Pay::Exact },
+                        Op::Advance { blocks: 2, secs: 10 },
+                        if remove_first { Op::GroupUpdate { add: vec![], remove: vec![a] } } else { Op::GroupUpdate { add: vec![(a, w1)], remove: vec![] } },
+                        Op::Advance { blocks: 255, secs: 0 },
+                        Op::GroupUpdate { add: vec![(a, w2)], remove: vec![] },
+                        Op::Advance { blocks: 1, secs: 5 },
+                        Op::Vote { by: By::Actor(a), prop: Target::Any(u16::MAX), vote: 0 },
+                    ]
+                })
+                .boxed();
+            let groups = if prop_s == "C05" {
+                prop_oneof![12 => single, 3 => campaign, 2 => retry].boxed()
+            } else if prop_s == "C06" {
+                prop_oneof![12 => single, 3 => campaign, 1 => long_haul].boxed()
+            } else {
+                prop_oneof![12 => single, 3 => campaign].boxed()
+            };
             let silent = prop_oneof![5 => Just(vec![]), 1 => proptest::collection::vec(weight(), 1..4), 2 => proptest::collection::vec(weight(), 4..12)];
-            (Just(fl), voters(&prop_s, fixed), silent, thr_spec(), dur(), proptest::collection::vec(groups, 0..max_ops).prop_map(|g| g.into_iter().flatten().collect::<Vec<_>>()))
+            (Just(fl), voters(&prop_s, fixed), silent, thr_spec(), dur_for(&prop_s), proptest::collection::vec(groups, 0..max_ops).prop_map(|g| g.into_iter().flatten().collect::<Vec<_>>()))
         })
-        .prop_map(|(flavour, voters, silent, thr, period, ops)| MCase { flavour, silent, voters, thr, period, ops })
+        .prop_flat_map(|c| (Just(c), proptest::bool::weighted(0.15)))
+        .prop_map(|((flavour, voters, silent, thr, period, ops), self_member)| MCase { flavour, silent, voters, thr, period, ops, self_member })
         .boxed()
 }
 
@@ -736,6 +780,13 @@ pub fn run_mcase(prop: &str, case: &MCase, ctx: &mut CaseCtx) -> Result<(), Viol
         if hook {
             try_exec(&mut app, &admin, &g, &cw4_group::msg::ExecuteMsg::AddHook { addr: ms.to_string() }, &[]).expect("add hook");
         }
+        // (C15 only: the re-entrancy model of C05 relies on the multisig not being a voter)
+        if case.self_member && prop == "C15" {
+            // (refused when the group's total is already at the top of the u64 range)
+            if try_exec(&mut app, &admin, &g, &cw4_group::msg::ExecuteMsg::UpdateMembers { add: vec![Member { addr: ms.to_string(), weight: 1 }], remove: vec![] }, &[]).is_ok() {
+                ctx.count("multisig_is_member_of_its_group");
+            }
+        }
         group = Some(g);
         ms
     };
@@ -793,6 +844,11 @@ pub fn run_mcase(prop: &str, case: &MCase, ctx: &mut CaseCtx) -> Result<(), Viol
                     // recovery sweep: go past every expiry, then try to recover every deposit
                     sweep.push(Op::FundDeposit { amt: 1_000_000_000 });
                     sweep.push(Op::Advance { blocks: 200, secs: 20_000 });
+                    if matches!(case.period, Dur::Height(n) if n > 150) {
+                        for _ in 0..3 {
+                            sweep.push(Op::Advance { blocks: 255, secs: 0 });
+                        }
+                    }
                     for k in 0..models.len() {
                         sweep.push(Op::Close { by: By::Actor(0), prop: Target::Any(k as u16) });
                         sweep.push(Op::Execute { by: By::Actor(255), prop: Target::Any(k as u16) });
@@ -877,7 +933,8 @@ pub fn run_mcase(prop: &str, case: &MCase, ctx: &mut CaseCtx) -> Result<(), Viol
         // ---------------- perform
         let done: Done = match &op {
             Op::Advance { blocks, secs } => {
-                let (b, s) = (*blocks as u64, *secs as u64);
+                // blocks == 255 stands for a very long pause (1 000 001 blocks)
+                let (b, s) = (if *blocks == 255 { 1_000_001 } else { *blocks as u64 }, *secs as u64);
                 w.app.update_block(|bl| {
                     bl.height += b;
                     bl.time = bl.time.plus_seconds(s);
@@ -988,6 +1045,13 @@ pub fn run_mcase(prop: &str, case: &MCase, ctx: &mut CaseCtx) -> Result<(), Viol
                             (Some(tok), true) => WasmMsg::Execute { contract_addr: tok.to_string(), msg: to_json_binary(&Cw20ExecuteMsg::Transfer { recipient: w.actors[*to as usize % N_ACTORS].to_string(), amount: Uint128::new(*amt as u128) }).unwrap(), funds: vec![] }.into(),
                             _ => BankMsg::Send { to_address: w.actors[*to as usize % N_ACTORS].to_string(), amount: coins(*amt as u128, DEP_DENOM) }.into(),
                         },
+                        PMsg::RePropose if !w.fixed && w.deposit.map(|d| d.cw20).unwrap_or(false) => WasmMsg::Execute {
+                            contract_addr: w.multisig.to_string(),
+                            msg: to_json_binary(&cw3_fixed_multisig::msg::ExecuteMsg::Propose { title: "nested".into(), description: "proposed by the multisig itself".into(), msgs: vec![], latest: None }).unwrap(),
+                            funds: vec![],
+                        }
+                        .into(),
+                        PMsg::RePropose => WasmMsg::Execute { contract_addr: w.recorder.to_string(), msg: to_json_binary(&RecExec::Record { tag, idx: i as u32 }).unwrap(), funds: vec![] }.into(),
                         PMsg::ReExecute(r) => WasmMsg::Execute { contract_addr: w.multisig.to_string(), msg: to_json_binary(&cw3_fixed_multisig::msg::ExecuteMsg::Execute { proposal_id: resolve_ref(r) }).unwrap(), funds: vec![] }.into(),
                         PMsg::ReVote(r) => WasmMsg::Execute { contract_addr: w.multisig.to_string(), msg: to_json_binary(&cw3_fixed_multisig::msg::ExecuteMsg::Vote { proposal_id: resolve_ref(r), vote: Vote::Yes }).unwrap(), funds: vec![] }.into(),
                         PMsg::ReClose(r) => WasmMsg::Execute { contract_addr: w.multisig.to_string(), msg: to_json_binary(&cw3_fixed_multisig::msg::ExecuteMsg::Close { proposal_id: resolve_ref(r) }).unwrap(), funds: vec![] }.into(),
@@ -1140,6 +1204,10 @@ pub fn run_mcase(prop: &str, case: &MCase, ctx: &mut CaseCtx) -> Result<(), Viol
             Done::Execute { ok, .. } => ctx.count(if *ok { "op_execute_ok" } else { "op_execute_fail" }),
             Done::Close { ok, .. } => ctx.count(if *ok { "op_close_ok" } else { "op_close_fail" }),
             _ => {}
+        }
+        // proposals come into being by the Propose calls of this history and in no other way
+        if post.props.len() != models.len() {
+            return Err(v(prop, "unexpected-proposal", format!("{at}: the multisig lists {} proposals, {} were created by successful Propose calls", post.props.len(), models.len())));
         }
         // newly executed proposals in this step (by observation)
         let mut newly_executed: Vec<usize> = vec![];
@@ -1557,7 +1625,10 @@ fn oracle_c05(w: &World, pre: &Obs, post: &Obs, done: &Done, models: &mut [PMode
                     return Err(v(prop, "close-admitted-wrongly", format!("{at}: Close succeeded on proposal {} with status {:?}, expired={expired}", o.id, o.status)));
                 }
             }
-            if post.bal != pre.bal {
+            // the refund of a proposal deposit (dep denom / cw20 columns) is C15's business; Close must not
+            // move anything else (the spend denom is what proposal messages pay with)
+            let other = |o: &Obs| o.bal.iter().map(|b| b[1]).collect::<Vec<_>>();
+            if (w.deposit.is_none() && post.bal != pre.bal) || other(post) != other(pre) {
                 return Err(v(prop, "close-dispatched", format!("{at}: Close moved funds")));
             }
         }
@@ -1831,7 +1902,7 @@ pub fn decode_mcase(prop: &str, u: &mut arbitrary::Unstructured) -> MCase {
             2 => ExecSpec::Only(d_actor(u)),
             _ => ExecSpec::Anyone,
         };
-        let deposit = if prop == "C15" { Some(DepSpec { cw20: arb_bool(u, 1, 2), amount: 1 + arb_below(u, 30) as u128, refund_failed: arb_bool(u, 1, 2) }) } else { None };
+        let deposit = if prop == "C15" || arb_bool(u, 1, 4) { Some(DepSpec { cw20: arb_bool(u, 1, 2), amount: 1 + arb_below(u, 30) as u128, refund_failed: arb_bool(u, 1, 2) }) } else { None };
         Flavour::Flex { executor, deposit, hook: arb_bool(u, 1, 2), settle_blocks: if prop == "C06" && arb_bool(u, 1, 7) { 0 } else { 1 + arb_below(u, 2) as u8 } }
     };
     let n_v = 1 + arb_below(u, N_ACTORS);
@@ -1846,7 +1917,7 @@ pub fn decode_mcase(prop: &str, u: &mut arbitrary::Unstructured) -> MCase {
         1 => ThrSpec::Pct(d_p(u)),
         _ => ThrSpec::Quorum(d_p(u), d_p(u)),
     };
-    let period = if arb_bool(u, 1, 2) { Dur::Height(1 + arb_below(u, 11) as u16) } else { Dur::Time(1 + arb_below(u, 119) as u32) };
+    let period = if arb_bool(u, if prop == "C06" { 3 } else { 1 }, 25) { Dur::Height(2_500_000) } else if arb_bool(u, 1, 2) { Dur::Height(1 + arb_below(u, 11) as u32) } else { Dur::Time(1 + arb_below(u, 119) as u32) };
     let d_by = |u: &mut arbitrary::Unstructured| -> By {
         match arb_below(u, 6) {
             0 => By::Actor(d_actor(u)),
@@ -1900,13 +1971,13 @@ pub fn decode_mcase(prop: &str, u: &mut arbitrary::Unstructured) -> MCase {
                     3 => Latest::AtMax(arb_below(u, 5) as i8 - 2),
                     _ => Latest::None,
                 };
-                let pay = if prop == "C15" { [Pay::Exact, Pay::Exact, Pay::Exact, Pay::None, Pay::Short, Pay::Excess, Pay::WrongDenom, Pay::ExtraCoin][arb_below(u, 8)] } else { Pay::None };
+                let pay = if prop == "C15" { [Pay::Exact, Pay::Exact, Pay::Exact, Pay::None, Pay::Short, Pay::Excess, Pay::WrongDenom, Pay::ExtraCoin][arb_below(u, 8)] } else if arb_bool(u, 1, 9) { Pay::None } else { Pay::Exact };
                 Op::Propose { by: d_by(u), msgs, latest, pay }
             }
             3..=7 => Op::Vote { by: d_by(u), prop: d_target(u), vote: [0u8, 0, 0, 1, 1, 2, 3][arb_below(u, 7)] },
             8 | 9 => Op::Execute { by: d_by(u), prop: d_target(u) },
             10 => Op::Close { by: d_by(u), prop: d_target(u) },
-            11 => Op::Advance { blocks: arb_below(u, 4) as u8, secs: arb_below(u, 40) as u16 },
+            11 => if arb_bool(u, 1, 25) { Op::Advance { blocks: 255, secs: 0 } } else { Op::Advance { blocks: arb_below(u, 4) as u8, secs: arb_below(u, 40) as u16 } },
             12 => Op::ToExpiry { prop: u.arbitrary().unwrap_or(0), delta: arb_below(u, 5) as i8 - 2 },
             13 => {
                 if prop == "C06" || arb_bool(u, 1, 4) {
@@ -1925,5 +1996,6 @@ pub fn decode_mcase(prop: &str, u: &mut arbitrary::Unstructured) -> MCase {
         ops.push(op);
     }
     let silent = if arb_bool(u, 1, 3) { (0..arb_below(u, 12)).map(|_| d_weight(u)).collect() } else { vec![] };
-    MCase { flavour, silent, voters, thr, period, ops }
+    let self_member = arb_bool(u, 1, 6);
+    MCase { flavour, silent, voters, thr, period, ops, self_member }
 }
